@@ -50,6 +50,159 @@ def filter_spec(k):
     return spec
 
 
+# ---- folds: the application tree of an ABSTRACT binary function over the arguments -------------------------------------
+# binary_fold: left fold  f(...f(f(a0, a1), a2)..., ak-1)   (right_fold: f(a0, f(a1, ... f(ak-2, ak-1)))).
+# batched_fold: the arguments are combined batch-wise; for every batch size the result is a bracketing of the arguments
+# IN ORDER (each argument exactly once, order preserved), every application combining at most `batch_size` operands
+# left to right -- hence equal to the left fold for every associative f (select_batch, parity, minimum rely on it).
+from pyvc import interp as I  # noqa: E402
+from pyvc.values import SObj  # noqa: E402
+import cohdl.std._core_utility as _CU  # noqa: E402
+
+
+def _abstract_fn(a, b):
+    """the folded function: builds the application tree"""
+
+
+I.register_model(_abstract_fn, lambda it, a, b: ("f", a, b))
+I.register_inline(_CU.const_cond)
+I.register_inline(_CU._batch_args)
+FOLD_MODELS = [
+    (_CU._Value.__dict__["__call__"], lambda it, self, x, *a, **k: x),
+    (_CU.static_assert, lambda it, cond, *a, **k: None),
+]
+
+
+def left_tree(xs):
+    t = xs[0]
+    for x in xs[1:]:
+        t = ("f", t, x)
+    return t
+
+
+def right_tree(xs):
+    t = xs[-1]
+    for x in reversed(xs[:-1]):
+        t = ("f", x, t)
+    return t
+
+
+def leaves(t):
+    return leaves(t[1]) + leaves(t[2]) if isinstance(t, tuple) and t and t[0] == "f" else [t]
+
+
+def fold_summary(sx, fn, args, right_fold=False):
+    """binary_fold as callers may use it: the left (right) fold of fn over args"""
+    xs = list(args)
+    app = lambda a, b: sx.it.call(fn, [a, b], {})
+    if right_fold:
+        t = xs[-1]
+        for x in reversed(xs[:-1]):
+            t = app(x, t)
+        return t
+    t = xs[0]
+    for x in xs[1:]:
+        t = app(t, x)
+    return t
+
+
+FN = Built([], lambda env: _abstract_fn, lambda a: "f", lambda a: None)
+con = contract("cohdl.std._core_utility:binary_fold", PROPS)
+con.summary = fold_summary
+for k in range(1, 7):
+    for right in (False, True):
+        ARGS = Built([], (lambda k: lambda env: [f"a{i}" for i in range(k)])(k), lambda a: "args", lambda a: None)
+        c = Case(f"{k}-args,{'right' if right else 'left'}", [FN, ARGS], (lambda right: lambda sx, fn, args, right_fold=False: (right_tree if right else left_tree)(list(args)))(right),
+                 kwargs={"right_fold": Built([], (lambda r: lambda env: r)(right), lambda a: repr(right), lambda a: None)})
+        c.native = False
+        c.models = FOLD_MODELS
+        con.cases.append(c)
+
+
+def max_arity(t):
+    """largest number of operands combined by one left-to-right chain of applications"""
+    if not (isinstance(t, tuple) and t and t[0] == "f"):
+        return 1, 1
+    # length of the left spine = operands of this chain
+    n, cur, worst = 1, t, 1
+    while isinstance(cur, tuple) and cur and cur[0] == "f":
+        n += 1
+        worst = max(worst, max_arity(cur[2])[1])
+        cur = cur[1]
+    worst = max(worst, max_arity(cur)[1])
+    return n, max(worst, n)
+
+
+def batched_spec(k, b):
+    def spec(sx, fn, args, batch_size=2):
+        want = [f"a{i}" for i in range(k)]
+
+        def holds(res):
+            # (the upper levels of the tree are combined with the DEFAULT batch size 2 -- the recursive call does not
+            #  pass batch_size on; that changes the depth of the tree, not its value)
+            return leaves(res) == want and (k > 1 or res == "a0")
+
+        return C.Pred(holds, "bracketing of the arguments in order (each exactly once)")
+
+    return spec
+
+
+con = contract("cohdl.std._core_utility:batched_fold", PROPS)
+for b in (2, 3, 4):
+    for k in range(1, 10):
+        ARGS = Built([], (lambda k: lambda env: [f"a{i}" for i in range(k)])(k), lambda a: "args", lambda a: None)
+        c = Case(f"{k}-args,batch_size={b}", [FN, ARGS], batched_spec(k, b), kwargs={"batch_size": Built([], (lambda b: lambda env: b)(b), lambda a: repr(b), lambda a: None)})
+        c.native = False
+        c.models = FOLD_MODELS
+        con.cases.append(c)
+
+
+# ---- rotations and the overflow-free adder, for symbolic widths and values ------------------------------------------------
+from cohdl import BitVector as _BV, Unsigned as _U  # noqa: E402
+from contracts.core_models import BVShape, UShape, BV, U, width as _w, bits as _b, P2  # noqa: E402
+
+
+def rot_spec(left):
+    def spec(sx, inp, n=1):
+        w, x = _w(inp), _b(inp)
+        sx.require(sym.And(n >= 0, n <= w))
+        # rotate by n: bit i of the result is bit (i -/+ n) mod w of the input
+        k = n if left else w - n
+        sx.lemma("mod-scale", x, P2(w - k), P2(k))
+        sx.pow2_facts(w, k, w - k, products=[(k, w - k)])
+        return BV(w, sym.pymod(x * P2(k), P2(w)) + sym.pydiv(x, P2(w - k)))
+
+    return spec
+
+
+for nm, left in (("rol", True), ("ror", False)):
+    con = contract(f"cohdl.std._core_utility:{nm}", PROPS)
+    c = Case("symbolic", [BVShape("w", "x"), PyInt("n", None, None, -1, 9)], rot_spec(left))
+    c.may_reject = AssertionError
+    c.interp_flags = {"arith_hints": True}
+    # a @ b: the assumed (bounded stand-in: contracts/c09_bounded.py) contract of BitVector.__matmul__, a forms the MSBs
+    c.models = [(_CU.static_assert, lambda it, cond, *a, **k: None if it.truth(cond) else it.raise_(AssertionError)),
+                (_BV.__dict__["__matmul__"], lambda it, a, b: BV(sym.to_int(_w(a)) + sym.to_int(_w(b)), _b(a) * P2(_w(b)) + _b(b)))]
+    con.cases.append(c)
+
+
+def safe_add_spec(sx, a, b):
+    # one bit wider than the wider operand: the sum is exact
+    return U(sym.maxv(_w(a), _w(b)) + 1, _b(a) + _b(b))
+
+
+con = contract("cohdl.std._core_utility:_safe_add_unsigned", PROPS)
+c = Case("symbolic", [UShape("w1", "a"), UShape("w2", "b")], safe_add_spec)
+c.interp_flags = {"arith_hints": True}
+con.cases.append(c)
+I.register_inline(_CU._safe_add_unsigned_target)
+# std.Value[T](x) on an unqualified primitive: the real code is interpreted
+from cohdl._core import _primitive_type as _PT  # noqa: E402
+from cohdl._core._type_qualifier import TypeQualifierBase as _TQB  # noqa: E402
+
+for _f in (_CU._Value.__dict__["__call__"], _CU._Value.__dict__["__getitem__"], _CU._Value.__dict__["__init__"], _PT.is_primitive_type, _TQB.__dict__["decay"], _CU._check_type_qualifier_params):
+    I.register_inline(_f)
+
 con = contract("cohdl.std._core_utility:_repeat_filter_by_factor", PROPS)
 for k in range(1, 7):
     lst = Built([], (lambda k: lambda env: [f"piece{i}" for i in range(k)])(k), (lambda k: lambda a: repr([f"piece{i}" for i in range(k)]))(k), (lambda k: lambda a: [f"piece{i}" for i in range(k)])(k))
